@@ -40,6 +40,25 @@ def gen(rng, tier):
         ops = rand_ops(rng, info["cids"], rng.randint(1, 8))
         extra = [GI.rand_state_for(rng, info) for _ in range(rng.randint(1, 3))]
         cases.append({"op": "relax_history", "input": [inst, ops, st, extra], "stream": "random"})
+    # residuals between the bound tolerance 1e-7 and the feasibility tolerance 1e-6 (2^-21), just below 1e-7 (2^-24) and
+    # above 1e-6 (2^-19), on <= 0 and = 0 constraints, either sign: a constraint is judged with the SAME tolerance whether it is
+    # active or relaxed (exact dyadic values: every float operation is exact)
+    from common import f64 as _f64
+    for k in range(12 if tier == "quick" else 150):
+        ids = rng.sample(range(1, 30), 3)
+        dvs = [GI.dv(i, 3, (-10.0, 10.0)) for i in ids]
+        lin = lambda i, c: ["lin", [[[i, _f64(1.0)]], _f64(c)]]
+        cids = rng.sample(range(1, 40), 3)
+        cons = [GI.constraint(cids[0], 2, lin(ids[0], -1.0)), GI.constraint(cids[1], 1, lin(ids[1], -2.0)),
+                GI.constraint(cids[2], 2, lin(ids[2], 0.0))]
+        rng.shuffle(cons)
+        nrem = rng.randint(0, 2)
+        inst = [rng.choice([1, 2]), [lin(ids[0], 0.0)], dvs, cons[nrem:],
+                [[[c], "why", []] for c in cons[:nrem]], [], [], [], []]
+        d = lambda: rng.choice([2.0 ** -21, 2.0 ** -21, -(2.0 ** -21), 2.0 ** -24, 2.0 ** -19, 0.0])
+        mk = lambda: [[ids[0], _f64(1.0 + d())], [ids[1], _f64(2.0 + d())], [ids[2], _f64(d())]]
+        ops = rand_ops(rng, cids, rng.randint(2, 6))
+        cases.append({"op": "relax_history", "input": [inst, ops, mk(), [mk() for _ in range(3)]], "stream": "near-tolerance"})
     if tier == "thorough":
         inst, info = GI.rand_instance(rng, n_cons=2, n_removed=1)
         st = GI.rand_state_for(rng, info)
